@@ -19,19 +19,24 @@
   models of `Model/TurtleTokens.lean`, and that instance is what the driver runs.
 
   The model is of the REPAIRED code (patches `fix-ttl-collection-subject`, `fix-trig-collection-
-  subject-continue`, `fix-ttl-comment-eof`):
+  subject-continue`, `fix-ttl-comment-eof`, `fix-ttl-explicit-langstring`):
     * D11  Turtle `( … )` in subject position is handled as in TriG (`()` is rdf:nil, a non-empty
            collection is followed by a *required* predicateObjectList that may continue with `;`);
     * D40  TriG pushed the `;`-continuation of a subject collection with the *outer* evaluation
            context (nil subject): `(1) <p> <o> ; <q> <r> .` emitted `(nil, q, r)`;
     * D13  a comment that ends the input hands EOF to the pending scan function instead of
-           `terminate()`.
+           `terminate()`;
+    * D41  `"x"^^rdf:langString` / `^^rdf:dirLangString` (explicit datatype, hence no tag) is an error, as
+           in the repaired N-Triples / N-Quads decoders (patch `fix-ttl-explicit-langstring`).
 
   Faithfully kept oddities (not defects of the properties checked here, so not repaired):
     * several closures ignore their `err` argument and look at the zero `DecodedRune`; when they
       then call `BacktrackRunes(r0)` a NUL rune enters the buffer (`Arg.orNul`); the read error is
       thereby replaced by a later "unexpected rune '\x00'" error;
-    * `( … ) .`‑style leniencies of TriG graph blocks (`{ <a> <b> <c> <d> <e> <f> }` is accepted).
+    * each directive leaks one `reader_scanStatement` frame (the function pushes itself and the
+      directive's last closure returns it again); `terminate()` drops them all at the end;
+    * leniencies such as `{ <a> <b> <c> <d> <e> <f> }` (missing `.` in a TriG graph block) and the
+      rejection of `[ <p> <o> ] <q> <r> ; <s> <t> .` (D42, a C08 matter) are reproduced as they are.
 
   Not modelled: text offsets (`commit…` calls, `…Location` fields, D18), directive listeners,
   error message texts (errors are the classes of `EClass`).
@@ -460,7 +465,10 @@ def stepLiteralTail (C : Cfg) (e : End) (x : Ectx) (env : Env) (lex : List Nat) 
             match tr with
             | .panic => .panic
             | .err k => .err k
-            | .ok dt r => .ok { emit := some (mkStmt x (.lit lex dt none)), inp := r, env := env }
+            | .ok dt r =>
+              -- repaired (D41): an explicit rdf:langString / rdf:dirLangString datatype is an error
+              if dt = rdfLangString ∨ dt = rdfDirLangString then .err .syntax
+              else .ok { emit := some (mkStmt x (.lit lex dt none)), inp := r, env := env }
     else .ok { emit := some (mkStmt x (.lit lex xsdString none)), inp := c :: rest0, env := env }
 
 /-- emit `(CurSubject, CurPredicate, term)` -/
